@@ -45,6 +45,10 @@ class ZarrCollection(SyncedCollection):
 
     _backend = __name__  # type: ignore
 
+    # List-like collections (including lists nested in dicts) must reject
+    # non-string keys as well.
+    _validators = (require_string_key,)
+
     def __init__(self, group=None, name=None, codec=None, *args, **kwargs):
         if not ZARR:
             raise RuntimeError(
